@@ -792,9 +792,20 @@ func describe(group string, c opCase) (bool, []string) {
 
 // excludedShape says whether (group, case) falls in a known finding and must not
 // be generated.
+//
+// Uint128.Mul never looks at the partial product u.w1*v.w1.  The defective shape is:
+// both high limbs non-zero (the exact product then never fits) and the rest of the
+// product, a*b - (a.w1*b.w1 << 128), still fits 128 bits, i.e. the ignored partial
+// product is the only evidence of the overflow.  Pairs with both high limbs non-zero
+// whose remaining terms overflow as well are signalled correctly and stay checked.
 func excludedShape(group string, c opCase) string {
 	if group == "mul" && c.W == 128 && c.A[1] != 0 && c.B[1] != 0 {
-		return findingMul128
+		rest := new(big.Int).Mul(c.A.big(), c.B.big())
+		top := new(big.Int).Mul(u64big(c.A[1]), u64big(c.B[1]))
+		rest.Sub(rest, top.Lsh(top, 128))
+		if rest.BitLen() <= 128 {
+			return findingMul128
+		}
 	}
 	return ""
 }
